@@ -36,7 +36,7 @@ def plan(tier, seed):
     for r in range(reps):
         for cls in REALC + CPLXC + ["fe2", "fe3", "fepoisson"]:
             for st in ("dense", "csc", "csr"):
-                for rhs in ("v", "c1", "blk", "blkdep", "cv"):
+                for rhs in ("v", "c1", "blk", "blkdep", "cv", "blkscaled"):
                     for override in ("auto",):
                         cases.append({"mod": "LinSolve", "cls": cls, "storage": st, "rhs": rhs, "solver": override, "r": r})
         for cls, st, sol in (("gen", "dense", "SolverDenseQR"), ("cgen", "dense", "SolverDenseLU"), ("spd", "csc", "CG"),
@@ -49,7 +49,7 @@ def plan(tier, seed):
         for cls in ("spd", "sym", "gen", "triu", "hpd", "herm", "csym", "cgen", "fe2"):
             for st in ("dense", "csc", "csr"):
                 for part in ("both", "free", "prescribed"):
-                    for rhs in ("v", "blk", "cv"):
+                    for rhs in ("v", "blk", "cv", "blkscaled"):
                         cases.append({"mod": "SystemOfEquations", "cls": cls, "storage": st, "part": part, "rhs": rhs, "r": r})
         for cls in ("spd", "sym", "gen", "hpd", "csym", "cgen", "fe2"):
             for st in ("dense", "csc"):
@@ -71,14 +71,42 @@ def _matrix(rng, cls, tier):
 
 
 def _rhs(rng, n, form, cplx):
-    k = {"v": None, "c1": 1, "blk": 3, "blkdep": 4, "cv": None}[form]
+    k = {"v": None, "c1": 1, "blk": 3, "blkdep": 4, "cv": None, "blkscaled": 3}[form]
     b = rng.standard_normal(n if k is None else (n, k))
     if form == "cv" or cplx:
         b = b + 1j * rng.standard_normal(b.shape)
     if form == "blkdep":
         b[:, 2] = b[:, 0] - 2 * b[:, 1]
         b[:, 3] = 0.0
+    if form == "blkscaled":       # load cases of very different magnitude in one block (each column is its own system)
+        b = b * np.array([1.0, 10.0 ** rng.uniform(-12, -8), 10.0 ** rng.uniform(2, 4)])
     return b
+
+
+def _set_matrix(sig, new, rng, ctx):
+    """hands a new matrix to the signal either as a new object or, where shapes/patterns allow, by updating the values of the
+    object the signal already holds (user loops often do `K.data[:] = ...` / `Z[...] = ...`)"""
+    old = sig.state
+    if rng.random() < 0.5:
+        try:
+            if sps.issparse(old) and sps.issparse(new) and old.format == new.format and old.format in ("csc", "csr") \
+                    and old.dtype == new.dtype and old.shape == new.shape:
+                a, b_ = old.copy(), new.copy()
+                a.sort_indices()
+                b_.sort_indices()
+                if np.array_equal(a.indices, b_.indices) and np.array_equal(a.indptr, b_.indptr):
+                    old.sort_indices()
+                    old.data[:] = b_.data
+                    ctx.count("inplace_matrix_updates")
+                    return
+            elif isinstance(old, np.ndarray) and isinstance(new, np.ndarray) and old.shape == new.shape and old.dtype == new.dtype \
+                    and old.flags.writeable:
+                old[...] = new
+                ctx.count("inplace_matrix_updates")
+                return
+        except Exception:
+            pass
+    sig.state = new
 
 
 def _colres(A, x, b):
@@ -155,8 +183,17 @@ def run_linsolve(case, ctx, rng):
             A = Afull * rng.uniform(0.5, 2.0)
         else:
             A = matgen.perturb_same_class(rng, Afull, case["cls"])
+        if case["cls"] in ("spd", "hpd") and st == "dense" and sol == "auto" and rep == 0 and n >= 2:
+            # definiteness changes along the history (positive diagonal kept): Cholesky has to fall back to LDL and come back
+            w_, v_ = np.linalg.eigh(Afull)
+            A2 = Afull - (w_[0] + 0.3 * (w_[1] - w_[0] if n > 1 else w_[0])) * np.outer(v_[:, 0], v_[:, 0].conj()) * 1.0
+            A2 = A2 - 1.2 * w_[0] * np.outer(v_[:, 0], v_[:, 0].conj()) * 0.0
+            A2 = Afull - 1.5 * w_[0] * np.outer(v_[:, 0], v_[:, 0].conj())
+            if np.all(np.real(np.diag(A2)) > 0) and np.linalg.cond(A2) < 1e6:
+                A = (A2 + A2.conj().T) / 2
+                ctx.count("definiteness_switches")
         b = _rhs(rng, n, form, np.iscomplexobj(b))
-        sA.state = matgen.to_storage(A, st)
+        _set_matrix(sA, matgen.to_storage(A, st), rng, ctx)
         sb.state = b
         tol = max(tol, 1e-13 * cond * 16)
     return neq, n
@@ -202,9 +239,12 @@ def run_soe(case, ctx, rng):
     cplx_rhs = form == "cv"
     if cplx_rhs and not cA and st != "dense":
         cplx_rhs = False
-    k = 3 if form == "blk" else None
+    k = 3 if form in ("blk", "blkscaled") else None
     bf = rng.standard_normal(nf if k is None else (nf, k))
     xp = rng.standard_normal(n - nf if k is None else (n - nf, k))
+    if form == "blkscaled":
+        colsc = np.array([1.0, 10.0 ** rng.uniform(-12, -8), 10.0 ** rng.uniform(2, 4)])
+        bf, xp = bf * colsc, xp * colsc
     if cplx_rhs or (cA and rng.random() < 0.5):
         bf = bf + 1j * rng.standard_normal(bf.shape)
         xp = xp + 1j * rng.standard_normal(xp.shape)
@@ -225,8 +265,9 @@ def run_soe(case, ctx, rng):
         x, b = (np.asarray(s.state) for s in m.sig_out)
         want = (n,) if k is None else (n, k)
         require(x.shape == want and b.shape == want, "SystemOfEquations/output-shape", x=list(x.shape), b=list(b.shape))
-        scale = max(np.max(np.abs(b)), np.max(np.abs(A)) * np.max(np.abs(x)), 1e-300)
-        e_eq = float(np.max(np.abs(A @ x - b))) / scale
+        xx_, bb_ = x.reshape(n, -1), b.reshape(n, -1)
+        scale = np.maximum(np.max(np.abs(bb_), axis=0), np.max(np.abs(A)) * np.max(np.abs(xx_), axis=0))
+        e_eq = float(np.max(np.max(np.abs(A @ xx_ - bb_), axis=0) / np.where(scale == 0, 1.0, scale)))      # per load case
         e_xp = float(np.max(np.abs(x[p2] - m.sig_in[2].state)))
         e_bf = float(np.max(np.abs(b[f2] - m.sig_in[1].state)))
         ctx.count("equations_checked", 3)
@@ -243,7 +284,7 @@ def run_soe(case, ctx, rng):
         m.sig_in[1].state = m.sig_in[1].state * rng.uniform(0.5, 2) + 0.1
         m.sig_in[2].state = m.sig_in[2].state[::-1].copy()
         A = A * rng.uniform(0.5, 2.0)
-        sA.state = matgen.to_storage(A, st)
+        _set_matrix(sA, matgen.to_storage(A, st), rng, ctx)
     return neq, n
 
 
